@@ -60,6 +60,7 @@ func main() {
 	}
 	genLocks(repo, out, ps)
 	genKinds(repo, out, ps)
+	genDecoders(repo, out, ps)
 }
 
 // ---------------------------------------------------------------------------- lock facts
@@ -1137,4 +1138,125 @@ func genKinds(repo, out string, ps []*packages.Package) {
 		_ = os.WriteFile(filepath.Join(out, "Kinds.lean"), []byte(b.String()), 0o644)
 		fmt.Printf("Kinds.lean: %d kinds\n", len(ks))
 	}
+}
+
+// ---------------------------------------------------------------------------- decoder guards
+
+// genDecoders records, for every `encoding.DecodeFunc(func(source Value, target unsafe.Pointer) error {…})`
+// literal of pkg/types, the shape that makes its "unsupported type" verdict a function of the
+// source's dynamic type alone: the body is `if s, ok := source.(K); ok { … } return …ErrUnsupportedType`
+// (or a type switch), and ErrUnsupportedType is not mentioned inside the guarded branch.
+func genDecoders(repo, out string, ps []*packages.Package) {
+	type fact struct {
+		fn, pos, guard string
+		unsupportedInside bool
+		delegates         bool
+		tailUnsupported   bool
+	}
+	var facts []fact
+	for _, p := range ps {
+		if p.Name != "types" {
+			continue
+		}
+		for _, f := range p.Syntax {
+			fname := p.Fset.Position(f.Pos()).Filename
+			if strings.HasSuffix(fname, "_test.go") || strings.Contains(filepath.Base(fname), "verif_") {
+				continue
+			}
+			for _, d := range f.Decls {
+				fd, ok := d.(*ast.FuncDecl)
+				if !ok || fd.Body == nil || !strings.HasSuffix(fd.Name.Name, "Decoder") && !strings.Contains(fd.Name.Name, "DecoderWith") {
+					continue
+				}
+				ast.Inspect(fd.Body, func(n ast.Node) bool {
+					c, ok := n.(*ast.CallExpr)
+					if !ok || len(c.Args) != 1 {
+						return true
+					}
+					sel, ok := c.Fun.(*ast.SelectorExpr)
+					if !ok || sel.Sel.Name != "DecodeFunc" {
+						return true
+					}
+					fl, ok := c.Args[0].(*ast.FuncLit)
+					if !ok || len(fl.Type.Params.List) == 0 || len(fl.Type.Params.List[0].Names) == 0 {
+						return true
+					}
+					src := fl.Type.Params.List[0].Names[0].Name
+					pos := p.Fset.Position(fl.Pos())
+					ft := fact{fn: fd.Name.Name, pos: fmt.Sprintf("%s:%d", filepath.Base(pos.Filename), pos.Line), guard: "none"}
+					mentions := func(n ast.Node, name string) bool {
+						found := false
+						ast.Inspect(n, func(m ast.Node) bool {
+							if id, ok := m.(*ast.Ident); ok && id.Name == name {
+								found = true
+							}
+							return !found
+						})
+						return found
+					}
+					callsDecode := func(n ast.Node) bool {
+						found := false
+						ast.Inspect(n, func(m ast.Node) bool {
+							if ce, ok := m.(*ast.CallExpr); ok {
+								if se, ok := ce.Fun.(*ast.SelectorExpr); ok && (se.Sel.Name == "Decode" || se.Sel.Name == "Compile" || se.Sel.Name == "Unmarshal") {
+									found = true
+								}
+							}
+							return !found
+						})
+						return found
+					}
+					stmts := fl.Body.List
+					if len(stmts) >= 1 {
+						switch st := stmts[0].(type) {
+						case *ast.IfStmt:
+							if as, ok := st.Init.(*ast.AssignStmt); ok && len(as.Rhs) == 1 {
+								if ta, ok := as.Rhs[0].(*ast.TypeAssertExpr); ok {
+									if id, ok := ta.X.(*ast.Ident); ok && id.Name == src && st.Else == nil {
+										ft.guard = "assert:" + exprStr(ta.Type)
+										ft.unsupportedInside = mentions(st.Body, "ErrUnsupportedType")
+										ft.delegates = callsDecode(st.Body)
+									}
+								}
+							}
+						case *ast.TypeSwitchStmt:
+							ft.guard = "switch"
+							ft.unsupportedInside = false
+							for _, cl := range st.Body.List {
+								cc := cl.(*ast.CaseClause)
+								if cc.List != nil && mentions(cc, "ErrUnsupportedType") {
+									ft.unsupportedInside = true
+								}
+							}
+							ft.delegates = callsDecode(st.Body)
+						}
+					}
+					if len(stmts) >= 1 {
+						if rs, ok := stmts[len(stmts)-1].(*ast.ReturnStmt); ok {
+							ft.tailUnsupported = mentions(rs, "ErrUnsupportedType")
+						}
+					}
+					if ft.guard == "none" {
+						ft.delegates = callsDecode(fl.Body)
+						ft.unsupportedInside = mentions(fl.Body, "ErrUnsupportedType")
+					}
+					facts = append(facts, ft)
+					return true
+				})
+			}
+		}
+	}
+	sort.Slice(facts, func(i, j int) bool { return facts[i].pos < facts[j].pos })
+	var b strings.Builder
+	b.WriteString("/-\nGENERATED by /verif/extract from pkg/types: the shape of every leaf decoder\n(`encoding.DecodeFunc(func(source Value, target unsafe.Pointer) error {…})`). Do not edit.\n-/\n")
+	b.WriteString("namespace Uniflow.Generated.Decoders\n\nstructure DecoderShape where\n  fn : String                 -- enclosing constructor (newStringDecoder …)\n  pos : String\n  guard : String              -- assert:<source kind> | switch | none\n  unsupportedInside : Bool    -- ErrUnsupportedType mentioned inside the guarded branch\n  delegates : Bool            -- calls another decoder (Decode / Compile / Unmarshal) inside\n  tailUnsupported : Bool      -- falls through to `return …ErrUnsupportedType`\n  deriving Repr, DecidableEq\n\ndef shapes : List DecoderShape := [\n")
+	for i, ft := range facts {
+		if i > 0 {
+			b.WriteString(",\n")
+		}
+		fmt.Fprintf(&b, "  ⟨%q, %q, %q, %v, %v, %v⟩", ft.fn, ft.pos, ft.guard, ft.unsupportedInside, ft.delegates, ft.tailUnsupported)
+	}
+	b.WriteString("\n]\n\nend Uniflow.Generated.Decoders\n")
+	_ = os.WriteFile(filepath.Join(out, "Decoders.lean"), []byte(b.String()), 0o644)
+	fmt.Printf("Decoders.lean: %d decoder shapes\n", len(facts))
 }
